@@ -7,58 +7,59 @@ The statement for whole specs and arbitrary text is covered by crash fuzzing of 
 (`harness/suites/fe_fuzz.py`, the injections of C01) and is labelled testing.  Proved here: the crash layer of the two
 component models (`FeParams.instantiate`, `FeNames.register`), which make Python's partiality explicit (`FeErr.crash`,
 `Err.crash`).  Both are total Lean functions: termination is by construction.
+
+Both statements are full strength since the crash sites the first version of the models mirrored (`List(T,
+min_items="a")`; a name clash that involves an annotation; a definition named like a built-in type, a route or an
+annotation type) were repaired in the code: the former witnesses are kept as regression statements of the new
+behaviour.
 -/
 namespace StoneVerif.C03
 open StoneVerif.FeParams StoneVerif.FeNames
 
-/-- Outside the one known site (a list length that is not a number), type instantiation ends in a type or in the
-spec error. Missing for full strength: `hitsListLengthCrash` (see `crash_list_min_items_str`). -/
-theorem instantiate_no_crash_partial (rx : String → Bool) (k : TyKind) (pos : List Arg) (kw : List (String × Arg))
-    (h : hitsListLengthCrash k kw = false) : ∀ e, instantiate rx k pos kw ≠ .error (.crash e) :=
-  FeParams.instantiate_no_crash_partial rx k pos kw h
+/-- Type instantiation (`_instantiate_data_type` + the `__init__` checks) ends in a type or in the spec error, for
+every built-in type and every argument list. -/
+theorem instantiate_no_crash (rx : String → Bool) (k : TyKind) (pos : List Arg) (kw : List (String × Arg)) :
+    ∀ e, instantiate rx k pos kw ≠ .error (.crash e) :=
+  FeParams.instantiate_no_crash rx k pos kw
 
-theorem resolveBuiltin_no_crash_partial (rx : String → Bool) (k : TyKind) (pos : List Arg) (kw : List (String × Arg))
-    (nullable : Bool) (h : hitsListLengthCrash k kw = false) :
-    ∀ e, resolveBuiltin rx k pos kw nullable ≠ .error (.crash e) :=
-  FeParams.resolveBuiltin_no_crash_partial rx k pos kw nullable h
+/-- The same for a whole reference `K(args)` / `K(args)?`. -/
+theorem resolveBuiltin_no_crash (rx : String → Bool) (k : TyKind) (pos : List Arg) (kw : List (String × Arg))
+    (nullable : Bool) : ∀ e, resolveBuiltin rx k pos kw nullable ≠ .error (.crash e) :=
+  FeParams.resolveBuiltin_no_crash rx k pos kw nullable
 
-/-- The only exception that can escape type instantiation is the `TypeError` of `List.__init__`. -/
-theorem instantiate_crash_is_list_typeError (rx : String → Bool) (k : TyKind) (pos : List Arg)
-    (kw : List (String × Arg)) (e : PyExc) (h : instantiate rx k pos kw = .error (.crash e)) :
-    e = .typeError ∧ k = .list :=
-  FeParams.instantiate_crash_typeError rx k pos kw e h
+/-- Repaired: `List(String, min_items="a")`, `min_items=null`, `max_items=Int32` (were `TypeError`s from `<`). -/
+theorem list_min_items_str_refused :
+    instantiate (fun _ => true) .list [.ty true] [("min_items", .str "a")] = .error (.specerr .badArgument) ∧
+    instantiate (fun _ => true) .list [.ty true] [("min_items", .null)] = .error (.specerr .badArgument) ∧
+    instantiate (fun _ => true) .list [.ty true] [("max_items", .ty false)] = .error (.specerr .badArgument) :=
+  FeParams.list_min_items_str_refused
 
-/-- `List(String, min_items="a")`: `"a" < 0` raises `TypeError`, which `_instantiate_data_type` does not catch. -/
-theorem crash_list_min_items_str :
-    instantiate (fun _ => true) .list [.ty true] [("min_items", .str "a")] = .error (.crash .typeError) :=
-  FeParams.crash_list_min_items_str
+/-- non-vacuity: the model of the constructor call can fail (a call with the wrong number of arguments is a
+`TypeError`); `instantiate_no_crash` says the bookkeeping in front of the call excludes it -/
+example : construct (fun _ => true) .list [] [] = .error (.crash .typeError) := by decide
 
-/-- The full-strength statement FAILS on today's code. -/
-theorem instantiate_no_crash_fails :
-    ¬ ∀ (rx : String → Bool) (k : TyKind) (pos : List Arg) (kw : List (String × Arg)) (e : PyExc),
-      instantiate rx k pos kw ≠ .error (.crash e) :=
-  FeParams.instantiate_no_crash_fails
+/-- Name registration ends in a state or in the spec error, for every list of files. -/
+theorem register_no_crash (fs : List File) : ∀ e, register fs ≠ .error (.crash e) :=
+  FeNames.register_no_crash fs
 
-example : hitsListLengthCrash .list [("min_items", .int 1), ("max_items", .float (.fin 3 2))] = false := by decide
+/-- non-vacuity: the model can fail (`min` of an empty `at_version`), from a state the pass never builds -/
+example : addItem { env := [(("a".toList, "r".toList), .routes [])] } "a".toList ⟨.type, "r".toList⟩
+    = .error (.crash .valueError) := rfl
 
-/-- Name registration ends in a state or in the spec error when no definition carries a built-in type name, none is
-an annotation, and no exact (namespace, name) is defined twice unless by routes. Missing for full strength: the three
-sites below. -/
-theorem register_no_crash_partial (fs : List File) (h : CrashFree fs) : ∀ e, register fs ≠ .error (.crash e) :=
-  FeNames.register_no_crash_partial fs h
+/-- Repaired: a clash that involves an annotation (was `AssertionError`). -/
+theorem annotation_clash_refused :
+    register [⟨"a".toList, [⟨.annotation, "Foo".toList⟩, ⟨.type, "foo".toList⟩]⟩] = .error (.specerr .nameConflict) :=
+  FeNames.annotation_clash_refused
 
-/-- a clash that involves an annotation: `_get_user_friendly_item_type_as_string` asserts -/
-theorem crash_annotation_clash :
-    register [⟨"a".toList, [⟨.annotation, "Foo".toList⟩, ⟨.type, "foo".toList⟩]⟩] = .error (.crash .assertionError) :=
-  FeNames.crash_annotation_clash
+/-- Repaired: `struct String` (was `AttributeError`: the message read `_ast_node` of a class). -/
+theorem builtin_redefined_refused :
+    register [⟨"a".toList, [⟨.type, "String".toList⟩]⟩] = .error (.specerr .symbolDefined) :=
+  FeNames.builtin_redefined_refused.1
 
-/-- `struct String`: the "already defined" message reads `_ast_node` of a class -/
-theorem crash_builtin_redefined :
-    register [⟨"a".toList, [⟨.type, "String".toList⟩]⟩] = .error (.crash .attributeError) :=
-  FeNames.crash_builtin_redefined
-
-theorem register_no_crash_fails : ¬ ∀ fs e, register fs ≠ .error (.crash e) := FeNames.register_no_crash_fails
-
-example : CrashFree FeNames.exampleFiles := by decide
+/-- Repaired: `route r` then `struct r`; `annotation_type T` then `struct T` (were `AttributeError`s). -/
+theorem taken_name_refused :
+    register [⟨"a".toList, [⟨.route 1, "r".toList⟩, ⟨.type, "r".toList⟩]⟩] = .error (.specerr .symbolDefined) ∧
+    register [⟨"a".toList, [⟨.annotationType, "T".toList⟩, ⟨.type, "T".toList⟩]⟩] = .error (.specerr .symbolDefined) :=
+  ⟨FeNames.route_then_type_refused, FeNames.annotation_type_then_same_name_refused⟩
 
 end StoneVerif.C03
